@@ -14,7 +14,9 @@ RULE = ('index-expression grammar on annotated arrays filled with their own flat
         'an Ellipsis on 2-D/3-D arrays; (b) every item (ints incl. out of range, slices, int lists, python-list and ndarray '
         'boolean masks of every bit pattern) on the first axis of 2-D and 3-D arrays; (c) every tuple shape of length 0..ndim+2 '
         'over {axis item, Ellipsis, newaxis} in every position with a reduced item set per axis (shapes (4,), (2,4), (1,4), '
-        '(2,3,4), (3,1,4), zero-length axes; thorough: up to (3,3,6) and the full item set in pairs); (d) seeded random '
+        '(2,3,4), (3,1,4), zero-length axes; thorough: up to (3,3,6)); (c2) legal expressions: every pair of (epoch item, channel item) '
+        'over 15 ints/slices/lists/masks x 7 time slices with their Ellipsis / leading-newaxis spellings on (3,2,4), (2,5) '
+        '(thorough: also (2,3,6), (3,3,6), (3,6)); (d) seeded random '
         'expressions from the full grammar on shapes up to (3,3,6), s0 in {0,-5,7,-64}, three rates; (e) chains of 2-3 '
         'expressions; (f) concat along time/channel/epoch of adjacent splits, of splits with a gap/overlap/other rate/other '
         'labels/other metadata/other ndim, and of pieces obtained by real slicing; (g) arithmetic, copy, astype. '
@@ -840,11 +842,46 @@ def cases(tier, rng):
             keep = 450 if len(shape) < 3 else 700
             if len(allx) > keep:
                 allx = rng.sample(allx, keep)
-        elif len(allx) > 30000:
-            allx = rng.sample(allx, 30000)
+        elif len(allx) > 6000:
+            allx = rng.sample(allx, 6000)
         for idx in allx:
             yield _get(shape, [idx], s0=rng.choice([0, -5, 7]), fs=rng.choice(FSS),
                        cn=(len(shape) == 1 and rng.random() < 0.5))
+    # (c2) legal expressions: every pair (epoch item, channel item) x time slice, with the equivalent Ellipsis / newaxis spellings
+    def legal(n):
+        return [['i', 0], ['i', -1], full, ['s', 1, None, None], ['s', None, -1, None], ['s', None, None, 2], ['s', -n - 2, None, None],
+                ['s', n + 2, None, None], ['l', [0]], ['l', [n - 1, 0]], ['l', [-1, -1, 0]], ['m', [1] + [0] * (n - 1), False],
+                ['m', [0] * (n - 1) + [1], True], ['m', [1] * n, True], ['m', [0] * n, False]]
+    tsl = [full, ['s', 1, None, None], ['s', -2, None, None], ['s', None, None, 2], ['s', 1, -1, 3], ['s', -9, 9, 1], ['s', 2, 2, None]]
+    reg = []
+    for shape in ([(3, 2, 4), (2, 5)] if quick else [(3, 2, 4), (2, 3, 6), (3, 3, 6), (2, 5), (3, 6)]):
+        if len(shape) == 3:
+            for ie in legal(shape[0]):
+                for ic in legal(shape[1]):
+                    for it in tsl:
+                        reg.append((shape, [ie, ic, it]))
+                    reg.append((shape, [ie, ic]))
+                    reg.append((shape, [ie, ic, ['e']]))
+                reg.append((shape, [ie, ['e'], tsl[1]]))
+            for ic in legal(shape[1]):
+                reg.append((shape, [['e'], ic, tsl[3]]))
+        else:
+            for ic in legal(shape[0]):
+                for it in tsl:
+                    reg.append((shape, [ic, it]))
+                    reg.append((shape, [['n'], ic, it]))
+                reg.append((shape, [ic]))
+                reg.append((shape, [ic, ['e']]))
+                reg.append((shape, [['n'], ic, ['e'], tsl[2]]))
+    if quick:
+        reg = rng.sample(reg, 1300)
+    for shape, items in reg:
+        yield _get(shape, [{'sole': False, 'items': items}], s0=rng.choice([0, -5, 7]), fs=rng.choice(FSS))
+    for n in (4, 5):
+        for it in tsl:
+            for k in (0, 1, 2):
+                yield _get((n,), [{'sole': False, 'items': [['n']] * k + [it]}], s0=-5, cn=(k == 1))
+                yield _get((n,), [{'sole': False, 'items': [['n']] * k + [['e'], it]}], s0=7)
     # (d) random expressions from the full grammar
     rshapes = [(6,), (4,), (3, 6), (2, 4), (1, 5), (3, 3, 6), (2, 3, 4), (3, 1, 5), (2, 2, 0), (0, 2, 3)]
     for _ in range(900 if quick else 25000):
